@@ -234,6 +234,12 @@ shim::ProbeResult probe(const shim::ProbeArgs& a) {
         r.outPaths = p.empty() ? 0 : 1; r.outPts = p.size();
         break;
       }
+      case shim::P_ScalePaths2: {
+        r.hasErrorCode = true;
+        Paths64 pp = ScalePaths<int64_t, double>(in, a.scaleX, a.scaleY, r.error);
+        r.outPaths = pp.size(); for (auto& p : pp) r.outPts += p.size();
+        break;
+      }
       case shim::P_MakePath: { Path64 p = MakePath(a.list); r.outPaths = p.empty() ? 0 : 1; r.outPts = p.size(); break; }
       case shim::P_MakePathD: { PathD p = MakePathD(a.list); r.outPaths = p.empty() ? 0 : 1; r.outPts = p.size(); break; }
       default: break;
